@@ -21,6 +21,11 @@ DEF_LEAF4 = ('Cmd(%s, << Grp("{", << Cmd(%s, <<>>) >>, <<>>), Grp("{", << Cmd(%s
              % (S('providecommand*'), S('nm'), S('begin'), S('e')))
 
 
+DEF_LEAF5 = ('Cmd(%s, << Grp("{", << Cmd(%s, <<>>) >>, <<>>), Grp("[", << T(%s) >>, <<>>), Grp("{", << Cmd(%s, << Grp("{", << T(%s) >>, <<>>), Grp("[", << T(%s) >>, <<>>) >>) >>, <<>>) >>)'
+             % (S('newcommand'), S('nm'), S('1'), S('begin'), S('e'), S('#1')))
+DEF_LEAVES = [DEF_LEAF, DEF_LEAF2, DEF_LEAF3, DEF_LEAF4, DEF_LEAF5]
+
+
 def leaf_cmd(name, *groups):
     """a complete command leaf: groups = ('{', 'text') / ('[', 'text')"""
     gs = ', '.join('Grp("%s", << T(%s) >>, <<>>)' % (k, S(t)) for k, t in groups)
